@@ -26,6 +26,11 @@ func checkC01(c *Ctx) {
 	m.checkConfinement()
 	checkNotRunningErrors(c) // every cache API call goes through the loop and returns the loop's reply (no fast path around the owner)
 	checkRequestChannelPairing(c)
+	// "duplicate keys, stale … versions": the version fold over a list is doSync's; the helpers between the
+	// client and cache.sync hand over the server's list element for element (no de-duplication, re-ordering
+	// or selection of their own, which would decide duplicates by position instead of by version)
+	checkListHelpers(c)
+	checkErrPropagation(c, "T-SHAPE(list-helpers)", "", "extractList", "meta.ExtractList")
 	c.floor("T-TABLE(doUpdate)", 4, "doUpdate has 9 paths; the floor is about half the pattern count of the pinned tree so that a refactoring that merges paths does not trip it")
 	c.floor("T-TABLE(doSync.item)", 4, "doSync item step has 9 in-loop paths; the floor is about half the pattern count of the pinned tree so that a refactoring that merges paths does not trip it")
 	c.floor("T-TABLE(doSync.sweep)", 3, "sweep: exit, in set, not in set")
